@@ -1,22 +1,27 @@
 /-
   C01 - a floating IP is never held by two live pods.
 
-  Same model and same reachability notion as C04 (`Galaxy.Plugin`, `run facts (init c) ms`, side conditions
-  `allAssumed`, see Props/C04.lean).  As planned in DESIGN.md the pod clause is a COROLLARY of the C04 invariant plus
-  the injectivity of the key function on (namespace, name); it therefore carries C04's side conditions and its two
-  known findings (hence `_partial`): with a stale-lister bind or a stale record under the key, the live pod loses its
-  address (C04) and the next pod is handed the same address (corpus/C01/*.ops, reproduced on the real code).
+  Same model and same reachability notion as C04 (`Galaxy.Plugin`, `run facts (init c) ms`, scope `allAssumed`, see
+  Props/C04.lean).  As planned in DESIGN.md the pod clause is a COROLLARY of the C04 invariant plus the injectivity of
+  the key function on (namespace, name).
 
   FULL STATEMENT: in every reachable state (1) every address has at most one owner record in memory and in the
   store, allocated and unallocated addresses are disjoint, store and memory agree; (2) two distinct pods that are alive
-  never have a common address in their binding annotations.
+  never have a common address in their binding annotations - "with any single API call failing".
+  Proved within `allAssumed`: non-empty names, bind requests carry the pod UID, reloads keep live pods' addresses
+  configured (operator error otherwise: the address is handed out again after being re-added) - and the injected fault
+  of a reload is not one of ConfigurePool's store deletes.  The last restriction IS inside C01's quantifier, hence
+  `_partial`: ConfigurePool ignores a failed delete, the stale object is resurrected by a later reload that re-adds
+  the address, resync then releases the whole key incl. the live pod's address, which the next pod is handed
+  (corpus/C01/reload-delete-fault-shared-ip.ops reproduces it on the real code; known finding).
 -/
 import Galaxy.Lemmas.PluginMain
 
 namespace Galaxy.Props.C01
 open Galaxy Galaxy.Plugin
 
-/-- same regenerated shape as C04 (UID guards, re-reads under the pod lock, lister then API server) -/
+/-- same regenerated shape as C04 (UID guards incl. Bind's lister-UID check and whole-key check, re-reads under the pod
+    lock, lister then API server) -/
 theorem fact_plugin_shape : Galaxy.Plugin.facts = Facts.good := by decide
 
 /-- the per-pod key mutex is taken by all six entry points (operations on one pod name are atomic moves) -/
